@@ -875,6 +875,13 @@ def translate_module(repo, relfile, ns, funcs):
         if name not in nodes:
             problems.append('%s: function %s not found in %s' % (ns, name, relfile))
             continue
+        import argwrites
+        aw = argwrites.arg_writes(nodes[name])
+        if aw:
+            # arrays are immutable values in the translation: a kernel that writes through a parameter is not translated faithfully
+            problems.append('%s: writes through its argument (%s) — not a pure function of its arguments' % (
+                name, '; '.join('line %d: `%s`: %s' % x for x in aw[:3])))
+            continue
         try:
             fns[name] = Fn(nodes[name], sig, fns, relfile, ns)
         except Unsupported as e:
